@@ -551,7 +551,8 @@ impl<T: SerializableType> SerializableType for Vec<T> {
     
     fn deserialize<I: DataInput>(input: &mut I) -> Result<Self> {
         let len = input.read_u32()? as usize;
-        let mut vec = Vec::with_capacity(len);
+        // `len` comes from the input: cap the reservation, the loop fails on missing elements
+        let mut vec = Vec::with_capacity(len.min(4096));
         for _ in 0..len {
             vec.push(T::deserialize(input)?);
         }
